@@ -44,7 +44,21 @@ func (o *Obligation) fileBase() string {
 
 func (vc *VC) scriptFor(o *Obligation) string {
 	var b strings.Builder
+	// the idx axiom is only needed when idx occurs under a quantifier (ground occurrences carry
+	// their defining equation)
+	quantified := strings.Contains(o.PC, "forall") || strings.Contains(o.Goal, "forall") || strings.Contains(o.Goal, "exists")
+	if !quantified {
+		for _, l := range vc.sc.lines[:o.Mark] {
+			if l != idxAxiom && (strings.Contains(l, "(forall ") || strings.Contains(l, "(exists ")) {
+				quantified = true
+				break
+			}
+		}
+	}
 	for _, l := range vc.sc.lines[:o.Mark] {
+		if l == idxAxiom && !quantified {
+			continue
+		}
 		b.WriteString(l)
 		b.WriteByte('\n')
 	}
@@ -66,6 +80,13 @@ type solveResult struct {
 func runSolver(ctx context.Context, s solverSpec, script string, dir, base string, timeoutS int, wantModel bool) solveResult {
 	file := filepath.Join(dir, base+"."+s.name+".smt2")
 	body := s.pre + script
+	if s.name == "cvc5-int" {
+		// the int-blasting mode rejects quantified bit-vector variables under uninterpreted functions;
+		// ground idx terms carry their defining equations, so the axiom can be dropped for this solver
+		body = strings.Replace(body, idxAxiom+"\n", "", 1)
+		body = strings.Replace(body, "(declare-fun idx ((_ BitVec 64) (_ BitVec 64)) (_ BitVec 64))\n", "", 1)
+		body = strings.ReplaceAll(body, "(idx ", "(bvadd ")
+	}
 	if wantModel {
 		body += "(get-model)\n"
 	}
